@@ -207,6 +207,9 @@ func (e *Engine) analyze(ctx context.Context, words []string) error {
 	}
 
 	pv, val, stats := e.mm.Analyze(ctx, e.pos)
+	if len(pv) == 0 {
+		return errors.New("no move found: the game is over or the search was cut short")
+	}
 	var pvs strings.Builder
 	for _, m := range pv {
 		pvs.WriteString(" ")
